@@ -9,7 +9,7 @@ Line-protocol front end for the filter machines (C20).
 
   filter  : oc | db:<n> | th:<secs> | de | ag:<secs>:<t0> | cu:always | cu:never | cu:ge:<k> | cu:notnum | A>B
   call    : <t>@<val>         t, secs, t0 in ticks (Int)
-  val     : n<int> (sixteenths) | s<hex utf-8 or -> | l<int,int,…> or l- | p<v>,<min>,<max>,<0|1>
+  val     : n<int> (sixteenths) | s<hex utf-8 or -> | l<int,int,…> or l- | p<v>,<min>,<max>,<0|1> | b0 | b1 | N
   outcome : - (not delivered) | ! (raised) | d<val>
 -/
 namespace PlumVerif.C20
@@ -27,6 +27,9 @@ def parseVal (s : String) : Option Val :=
     | some [v, mn, mx, 0] => some (.param v mn mx false)
     | some [v, mn, mx, 1] => some (.param v mn mx true)
     | _ => none
+  | ['b', '0'] => some (.bool false)
+  | ['b', '1'] => some (.bool true)
+  | ['N'] => some .none
   | _ => none
 
 def showInts (xs : List Int) : String :=
@@ -37,6 +40,8 @@ def showVal : Val → String
   | .str b => "s" ++ showHex b
   | .list xs => "l" ++ showInts xs
   | .param v mn mx p => s!"p{v},{mn},{mx},{if p then 1 else 0}"
+  | .bool b => if b then "b1" else "b0"
+  | .none => "N"
 
 def parseCall (s : String) : Option Call :=
   match s.splitOn "@" with
